@@ -415,6 +415,9 @@ def run_lists(case):
 
 # ---------------------------------------------------------------- space 2: pools
 DT2 = DT + datetime.timedelta(days=1)
+# one instant written in two time zones: the two datetimes are equal, so objects that differ only in them are equal
+DT_UTC = DT.replace(tzinfo=datetime.timezone.utc)
+DT_CET = DT_UTC.astimezone(datetime.timezone(datetime.timedelta(hours=1)))
 
 
 def _user(n="u"):
@@ -504,7 +507,7 @@ SPECS = {
         "cls": data.Note,
         "base": {"uuid": lambda: U("Note"), "message": lambda: "m", "created_on": lambda: DT},
         "alts": {"uuid": _uuid_alts("Note"), "message": [("m2", lambda: "m2")], "created_by": [("u", lambda: _user("u"))],
-                 "is_issue": [("true", lambda: True)], "created_on": [("dt2", lambda: DT2)]},
+                 "is_issue": [("true", lambda: True)], "created_on": [("dt2", lambda: DT2), ("utc", lambda: DT_UTC), ("cet", lambda: DT_CET)]},
     },
     "SoundEvent": {
         "cls": data.SoundEvent,
@@ -517,7 +520,7 @@ SPECS = {
         "base": {"uuid": lambda: U("SoundEventAnnotation"), "sound_event": lambda: _se("s"), "created_on": lambda: DT},
         "alts": {"uuid": _uuid_alts("SoundEventAnnotation"), "sound_event": [("s2", lambda: _se("s2"))],
                  "notes": [("n", lambda: [_note("n")])], "tags": [("x", lambda: [_tag("A", "x")]), ("xy", lambda: [_tag("A", "x"), _tag("A", "y")])],
-                 "created_by": [("u", lambda: _user("u"))], "created_on": [("dt2", lambda: DT2)]},
+                 "created_by": [("u", lambda: _user("u"))], "created_on": [("dt2", lambda: DT2), ("utc", lambda: DT_UTC), ("cet", lambda: DT_CET)]},
     },
     "SoundEventPrediction": {
         "cls": data.SoundEventPrediction,
